@@ -8,16 +8,20 @@ drawn from plus the request.  Two symbolic states are equal iff they were produc
 first-occurrence numbering of the symbolic states can be diffed against first-occurrence numbering
 of the SHA-1 of the real `get_state()`s, and symbolic outputs against digests of the real masks.
 
-Line: `hist nInst | table (src inScope)* | op | op | …`  with ops
+Line: `hist nInst | table (src inScope)* | pyx events | op | op | …`  with ops
   `0 inst key seed(-1 = None) (kind site req)*`   generator call with its recorded statements
-      (kind 0 draw, 1 `rng.seed(integerize_seed(seed))`, 2 Cython kernel run)
+      (kind 0 draw, 1 `rng.seed(integerize_seed(seed))`, 2 Cython kernel run: `2 kernelIndex args`; the
+      kernel's integer seed is the value of the draw before it)
   `1 inst`           new generator object
-  `2 which req`      draw from global stream `which` (0 numpy, 1 torch, 2 python)
-  `3 which seed`     seed a global stream
-Answer: `ok np ids | torch ids | python ids | private ids (per time, per instance) | output ids`
+  `2 which req`      draw from global stream `which` (0 numpy, 1 torch, 2 python, 3 libc `rand()`)
+  `3 which seed`     seed a global stream (3: libc `srand`)
+  `4 src dst`        deep copy / pickle round trip of a generator object
+`pyx events`: the generated libc event lists of the `.pyx` kernels (0 `srand(seed)`, 1 other `srand`,
+2 `rand()`; `-1` ends a kernel); a kernel run is `kernelProg (pyxSrandFirst events)`.
+Answer: `ok np ids | torch ids | python ids | private ids (per time, per instance) | output ids | libc ids`
 (ids taken after every op, the initial state first).
 
-Line: `acs | table | seed | lead statements | rest statements` → request traces of the
+Line: `acs | table | pyx events | seed | lead statements | rest statements` → request traces of the
 `return_acs=True` and of the mask program built by `withAcs`, and the ids of the values they saw.
 -/
 namespace DirectVerif.Driver.C05
@@ -30,6 +34,7 @@ def symOps : Ops Sym Int Int Sym where
   draw := fun st r => (st ++ [r], st ++ [r])
   intz := fun s => s
   entropy := fun n => -((n : Int) + 1)
+  srandTo := fun v => 7 :: v
 
 def srcOf (c : Int) : Src := if c < 0 then .unknown else srcOfCode c.toNat
 
@@ -37,25 +42,38 @@ def tableOf : List Int → Table
   | c :: s :: rest => ⟨srcOf c, s != 0⟩ :: tableOf rest
   | _ => []
 
-/-- the body program of one recorded call: its statements in order; output = key ++ values seen -/
-def progOf (key : List Int) : List Int → List Int → Sym → Prog Int Sym (List Int)
+/-- decode the `.pyx` event lists (`-1` terminated) -/
+def pyxOf (xs : List Int) : List (List String) :=
+  let tok (x : Int) : String := if x = 0 then "srand:seed" else if x = 1 then "srand:other" else "rand"
+  let r := xs.foldl (fun (acc : List (List String) × List String) x =>
+    if x = -1 then (acc.1 ++ [acc.2], []) else (acc.1, acc.2 ++ [tok x])) ([], [])
+  r.1
+
+/-- `srand(seed)` first, per kernel index, decided by the model's own predicate -/
+def flagsOf (xs : List Int) : List Bool := (pyxOf xs).map pyxSrandFirst
+
+/-- the body program of one recorded call: its statements in order; output = key ++ values seen
+(the values of private draws and the results of the kernel runs) -/
+def progOf (flags : List Bool) (key : List Int) : List Int → List Int → Sym → Prog Int Sym (List Int)
   | kind :: site :: r :: es, acc, last =>
-    if kind = 0 then .draw site.toNat r fun v => progOf key es (acc ++ v ++ [-999]) v
-    else if kind = 1 then .reseed site.toNat (progOf key es acc last)
-    else .kernel last (progOf key es acc last)
+    if kind = 0 then .draw site.toNat r fun v => progOf flags key es (acc ++ v ++ [-999]) v
+    else if kind = 1 then .reseed site.toNat (progOf flags key es acc last)
+    else kernelProg (flags.getD site.toNat false) last r fun x => progOf flags key es (acc ++ x ++ [-999]) last
   | _, acc, _ => .ret (key ++ acc)
 
 /-- G = (key, statements), A = Unit -/
-def bodyOf (g : List Int × List Int) (_ : Unit) : Prog Int Sym (List Int) := progOf g.1 g.2 [] []
+def bodyOf (flags : List Bool) (g : List Int × List Int) (_ : Unit) : Prog Int Sym (List Int) :=
+  progOf flags g.1 g.2 [] []
 
 def opOf : List Int → Option (Op Int Int (List Int × List Int) Unit)
   | 0 :: inst :: key :: seed :: evs => some (.call ([key], evs) () inst.toNat (if seed < 0 then none else some seed))
   | [1, inst] => some (.newInst inst.toNat)
   | [2, w, r] => some (.drawGlobal w.toNat r)
   | [3, w, s] => some (.seedGlobal w.toNat s)
+  | [4, src, dst] => some (.clone src.toNat dst.toNat)
   | _ => none
 
-def initState : State Sym Sym := ⟨fun i => [1, (i : Int)], [2], [3], [4], none, 0⟩
+def initState : State Sym Sym := ⟨fun i => [1, (i : Int)], [2], [3], [4], [5], 0⟩
 
 /-- first-occurrence numbering -/
 def number {α} [BEq α] (xs : List α) : List Int := Id.run do
@@ -68,25 +86,26 @@ def number {α} [BEq α] (xs : List α) : List Int := Id.run do
   return out.toList
 
 /-- states after every prefix of the history, using the very `step` of the model -/
-def states (t : Table) : State Sym Sym → List (Op Int Int (List Int × List Int) Unit) → List (State Sym Sym)
+def states (t : Table) (fl : List Bool) :
+    State Sym Sym → List (Op Int Int (List Int × List Int) Unit) → List (State Sym Sym)
   | st, [] => [st]
-  | st, op :: ops => st :: states t (step t symOps bodyOf st op).1 ops
+  | st, op :: ops => st :: states t fl (step t symOps (bodyOf fl) st op).1 ops
 
-def opHist (nInst : Nat) (t : Table) (ops : List (Op Int Int (List Int × List Int) Unit)) : String :=
-  let sts := states t initState ops
-  let outs := (run t symOps bodyOf initState ops).2.filterMap id
+def opHist (nInst : Nat) (t : Table) (fl : List Bool) (ops : List (Op Int Int (List Int × List Int) Unit)) : String :=
+  let sts := states t fl initState ops
+  let outs := (run t symOps (bodyOf fl) initState ops).2.filterMap id
   okG [number (sts.map (·.np)), number (sts.map (·.torch)), number (sts.map (·.py)),
-       number (sts.flatMap fun st => (List.range nInst).map st.priv), number outs]
+       number (sts.flatMap fun st => (List.range nInst).map st.priv), number outs, number (sts.map (·.libc))]
 
-def opAcs (t : Table) (seed : Int) (lead rest : List Int) : String :=
+def opAcs (t : Table) (fl : List Bool) (seed : Int) (lead rest : List Int) : String :=
   let sd := if seed < 0 then none else some seed
   -- lead returns the values it saw; `rest` continues from them
-  let leadP : Prog Int Sym (List Int) := progOf [] lead [] []
-  let acsP := withAcs leadP (fun x => x) (fun x => progOf [] rest x []) true
-  let maskP := withAcs leadP (fun x => x) (fun x => progOf [] rest x []) false
+  let leadP : Prog Int Sym (List Int) := progOf fl [] lead [] []
+  let acsP := withAcs leadP (fun x => x) (fun x => progOf fl [] rest x []) true
+  let maskP := withAcs leadP (fun x => x) (fun x => progOf fl [] rest x []) false
   let cur := symOps.seedTo (effSeedE symOps sd 0).1
-  let a := runIn t symOps sd acsP cur (effSeedE symOps sd 0).2 none
-  let m := runIn t symOps sd maskP cur (effSeedE symOps sd 0).2 none
+  let a := runIn t symOps sd acsP cur (effSeedE symOps sd 0).2 [5]
+  let m := runIn t symOps sd maskP cur (effSeedE symOps sd 0).2 [5]
   let enc (tr : List (Nat × Int)) : List Int := tr.flatMap fun (s, r) => [(s : Int), r]
   -- values: the output lists are `v ++ [-999]` blocks; number the blocks of both calls together
   let blocks (o : List Int) : List (List Int) :=
@@ -97,11 +116,11 @@ def opAcs (t : Table) (seed : Int) (lead rest : List Int) : String :=
 
 def step (op : String) (gs : List (List Int)) : String :=
   match op, gs with
-  | "hist", [nInst] :: tbl :: ops =>
+  | "hist", [nInst] :: tbl :: pyx :: ops =>
     match ops.mapM opOf with
-    | some os => opHist nInst.toNat (tableOf tbl) os
+    | some os => opHist nInst.toNat (tableOf tbl) (flagsOf pyx) os
     | none => "err BadOp"
-  | "acs", [tbl, [seed], lead, rest] => opAcs (tableOf tbl) seed lead rest
+  | "acs", [tbl, pyx, [seed], lead, rest] => opAcs (tableOf tbl) (flagsOf pyx) seed lead rest
   | _, _ => "err BadOp"
 
 end DirectVerif.Driver.C05
